@@ -10,7 +10,8 @@ path of the memory readers), C01 / C08 (the data area bound check of `Type2Tag.N
 
 What group TagCmd translates as command / response slices is translated here as WHOLE methods with
 `self.transceive` as a function parameter, so the regenerated text also fixes the order check - command - check.
-Model counterparts: `SectC03.sectorSelect`, `SectC03.write` (through the reference `T12OpsRef.sectorSelect`),
+Model counterparts: the reference `T12OpsRef.sectorSelect` (the bridge to `SectC03.sectorSelect` is suspended while
+that model moves to an optional believed sector),
 `Adv.fits`, `Tlv.phase1`, the reference functions of `Model/FnTagCmdRef.lean`.
 -/
 set_option linter.unusedSimpArgs false
@@ -27,74 +28,67 @@ theorem t2o_ss_p2_passive_bridge (code : Int) : Gen.Fn.t2o_ss_p2_passive code = 
 theorem t2o_ss_no_sector_bridge (s : Int) : Gen.Fn.t2o_ss_no_sector s = .error (.tagCmd 1) := rfl
 theorem t2o_ss_unsupported_bridge : Gen.Fn.t2o_ss_unsupported = .error (.tagCmd 1) := rfl
 theorem t2o_ss_commit_bridge (s : Int) : Gen.Fn.t2o_ss_commit s = s := rfl
-theorem t2o_ss_ret_bridge (cur : Int) : Gen.Fn.t2o_ss_ret cur = cur := rfl
+theorem t2o_ss_ret_bridge (cur : Option Int) : Gen.Fn.t2o_ss_ret cur = cur := rfl
+/-- statement 0 of the `if` in the handler of packet 2: `self._current_sector = None` (fixes/C16/0007) -/
+theorem t2o_ss_p2_forget_bridge : Gen.Fn.t2o_ss_p2_forget = none := rfl
+
+theorem select_send_bridge (cur : Option Int) (sector : Int) (tx1 : Bytes → Py Bytes) (p2 : Py Bytes)
+    (hs : ¬ cur = some sector) :
+    genSelectSend cur sector tx1 p2 = T12OpsRef.sectorSelect cur sector (tx1 [0xC2, 0xFF]) p2 := by
+  unfold genSelectSend T12OpsRef.sectorSelect
+  rw [t2o_ss_send1_bridge]
+  simp only [hs, if_false]
+  match tx1 [0xC2, 0xFF] with
+  | .error e => rfl
+  | .ok rsp =>
+    simp only [ack_eq]
+    by_cases hr : rsp = [0x0A]
+    · simp only [hr, decide_true, if_true]
+      match p2 with
+      | .ok _ => simp [t2o_ss_no_sector_bridge]
+      | .error e =>
+        cases e with
+        | tagCmd code =>
+          by_cases hc : code = 0 <;>
+            simp [hc, t2o_ss_commit_bridge, t2o_ss_ret_bridge, t2o_ss_p2_passive_bridge, t2o_ss_p2_forget_bridge]
+        | _ => rfl
+    · simp [hr, t2o_ss_unsupported_bridge]
 
 /-- the slices of `sector_select`, nested as in the source, are the reference function -/
-theorem sector_select_bridge (cur sector : Int) (tx1 : Bytes → Py Bytes) (p2 : Py Bytes) :
+theorem sector_select_bridge (cur : Option Int) (sector : Int) (tx1 : Bytes → Py Bytes) (p2 : Py Bytes) :
     genSectorSelect cur sector tx1 p2 = T12OpsRef.sectorSelect cur sector (tx1 [0xC2, 0xFF]) p2 := by
-  unfold genSectorSelect T12OpsRef.sectorSelect
-  rw [t2o_ss_send1_bridge, t2o_ss_guard_bridge]
-  by_cases hs : sector = cur
-  · simp [hs, t2o_ss_ret_bridge]
-  · simp only [hs, ne_eq, not_false_eq_true, decide_true, if_true, if_false]
-    match tx1 [0xC2, 0xFF] with
-    | .error e => rfl
-    | .ok rsp =>
-      simp only [ack_eq]
-      by_cases hr : rsp = [0x0A]
-      · simp only [hr, decide_true, if_true]
-        match p2 with
-        | .ok _ => simp [t2o_ss_no_sector_bridge]
-        | .error e =>
-          cases e with
-          | tagCmd code =>
-            by_cases hc : code = 0 <;> simp [hc, t2o_ss_commit_bridge, t2o_ss_ret_bridge, t2o_ss_p2_passive_bridge]
-          | _ => rfl
-      · simp [hr, t2o_ss_unsupported_bridge]
+  unfold genSectorSelect
+  cases cur with
+  | none => exact select_send_bridge none sector tx1 p2 (by simp)
+  | some c =>
+    simp only [t2o_ss_guard_bridge]
+    by_cases hs : sector = c
+    · subst hs
+      simp [T12OpsRef.sectorSelect, t2o_ss_ret_bridge]
+    · have h' : ¬ (some c = some sector) := by
+        intro h; cases h; exact hs rfl
+      simp only [hs, ne_eq, not_false_eq_true, decide_true, if_true]
+      exact select_send_bridge (some c) sector tx1 p2 h'
 
-example : genSectorSelect 0 1 (fun _ => .ok [0x0A]) (.error (.tagCmd 0)) = (.ok 1, 1) := by decide
-example : genSectorSelect 0 1 (fun _ => .error (.tagCmd 0)) (.error (.tagCmd 0)) = (.error (.tagCmd 0), 0) := by decide
-example : genSectorSelect 0 1 (fun _ => .ok [0x0A]) (.error (.tagCmd (-1))) = (.error (.tagCmd (-1)), 0) := by decide
+example : genSectorSelect (some 0) 1 (fun _ => .ok [0x0A]) (.error (.tagCmd 0)) = (.ok (some 1), some 1) := by decide
+example : genSectorSelect (some 0) 1 (fun _ => .error (.tagCmd 0)) (.error (.tagCmd 0)) = (.error (.tagCmd 0), some 0) := by
+  decide
+example : genSectorSelect (some 0) 1 (fun _ => .ok [0x0A]) (.error (.tagCmd (-1))) = (.error (.tagCmd (-1)), none) := by decide
+example : genSectorSelect none 0 (fun _ => .ok [0x0A]) (.error (.tagCmd 0)) = (.ok (some 0), some 0) := by decide
 
-/-- C03 / C16, restated for the regenerated slices: believed sector = sector of the tag after every return or
-raise -/
-theorem gen_sector_belief (cur sector real : Int) (tx1 : Bytes → Py Bytes) (p2 : Py Bytes) (h0 : cur = real) :
-    (genSectorSelect cur sector tx1 p2).2 = T12OpsRef.tagSectorAfter real cur sector (tx1 [0xC2, 0xFF]) p2 := by
+/-- C03 / C16, restated for the regenerated slices: after every return or raise the belief is unknown or the
+sector the tag is in -/
+theorem gen_sector_belief (cur : Option Int) (sector real : Int) (tx1 : Bytes → Py Bytes) (p2 : Py Bytes)
+    (h0 : T12OpsRef.BeliefOk cur real) :
+    T12OpsRef.BeliefOk (genSectorSelect cur sector tx1 p2).2
+      (T12OpsRef.tagSectorAfter real cur sector (tx1 [0xC2, 0xFF]) p2) := by
   rw [sector_select_bridge]; exact T12OpsRef.sectorSelect_belief cur sector real _ p2 h0
 
-/-- the sector model of C03 (`SectC03.sectorSelect`: result and `_current_sector`) is the regenerated
-`sector_select`, fed with what the model's air interface delivers for the two packets -/
-theorem sector_select_model (w : SectC03.W) (mr : Bool) (s : Nat) :
-    ((match (SectC03.sectorSelect w mr s).2 with
-      | .ok v => (.ok (v : Int) : Py Int)
-      | .error e => .error e), (((SectC03.sectorSelect w mr s).1.cur : Nat) : Int)) =
-    genSectorSelect (w.cur : Int) (s : Int) (fun _ => (SectC03.transceive 3 w mr .ss1 .timeout).2)
-      (p2Of (SectC03.exchange (SectC03.transceive 3 w mr .ss1 .timeout).1 mr (.ss2 s)).2) := by
-  rw [sector_select_bridge]
-  unfold SectC03.sectorSelect T12OpsRef.sectorSelect
-  by_cases hs : s = w.cur
-  · subst hs; simp
-  · have hs' : ¬ ((s : Int) = (w.cur : Int)) := by omega
-    simp only [hs, hs', if_false]
-    have h1 := transceive_cur mr .ss1 3 w .timeout
-    generalize SectC03.transceive 3 w mr .ss1 .timeout = r1 at h1
-    obtain ⟨w1, o1⟩ := r1
-    simp only at h1
-    match o1 with
-    | .error e => simp [h1]
-    | .ok rsp =>
-      by_cases hr : rsp = [0x0A]
-      · simp only [hr, if_true]
-        unfold SectC03.selectP2
-        have h2 := exchange_cur w1 mr (.ss2 s)
-        generalize SectC03.exchange w1 mr (.ss2 s) = r2 at h2
-        obtain ⟨w2, o2⟩ := r2
-        simp only at h2
-        match o2 with
-        | .ok d => simp [p2Of, h1, h2]
-        | .error e =>
-          cases e <;> simp [p2Of, SectC03.errOf, h1, h2]
-      · simp [hr, h1]
+/-- a garbled acknowledge of packet 2 leaves the regenerated slices with an unknown sector -/
+theorem gen_p2_garbled_forgets (cur : Option Int) (sector code : Int) (tx1 : Bytes → Py Bytes)
+    (h : cur ≠ some sector) (hc : code ≠ 0) (h1 : tx1 [0xC2, 0xFF] = .ok [0x0A]) :
+    genSectorSelect cur sector tx1 (.error (.tagCmd code)) = (.error (.tagCmd code), none) := by
+  rw [sector_select_bridge, h1]; exact T12OpsRef.sectorSelect_p2_garbled cur sector code h hc
 
 /-! ## `Type2Tag.write`, `Type2Tag.read` (NAK branch) -/
 
@@ -196,7 +190,7 @@ example : Gen.Fn.t1o_phase1 [0xE1, 0x10, 3, 5, 1, 2] 2 = .ok [0xE1, 0x10, 3, 0, 
 
 /-! ## the Type 2 memory reader -/
 
-/-- `elif key >= len(self)`: the test of `SectC03.getItem` -/
+/-- `elif key >= len(self)`: the test of the int-key branch of `__getitem__` (`SectC03.getItem`) -/
 theorem t2o_mr_get_cond_bridge (a n : Nat) : Gen.Fn.t2o_mr_get_cond a n = decide (a ≥ n) := by
   unfold Gen.Fn.t2o_mr_get_cond; simp
 
